@@ -1,5 +1,5 @@
 # replay of a bounded stand-in violation (C15): re-run native/c15_hbar.py
 import sys
-print('bosonic homodyne-select hbar=0.5: second run reports the outcome 0.565685, selected 0.282843')
+print('gaussian Gaussian-prep: var/hbar at hbar=2.0 is [0.65, 0.45], at hbar=0.5 it is [2.6, 1.8]')
 print('REPLAY-VIOLATION')
 sys.exit(1)
